@@ -52,7 +52,7 @@ def run(chk):
     wd = workdir("c07")
     # long token streams (selection / crossing / reversal) on the real counters
     f1 = background(tokfam.record_validate, chk, yv, "c07", "rev", 3 if quick else 8, 9, 1500 if quick else 20000, 4)
-    f2 = background(tokfam.record_validate, chk, yv, "c07", "sel", 2 if quick else 6, 7, 1500 if quick else 20000, 4)
+    f2 = background(tokfam.record_validate, chk, yv, "c07", "sel", 2 if quick else 6, 14, 1500 if quick else 20000, 4)
     # model: far beyond counter saturation, every stream
     tokfam.mc(chk, "MC_Tok_rev.cfg", "reversal detectors, PMAX scaled to 7: every stream of any length (state graph complete), "
               "positions renumbered before saturation", {"PMAX": 7}, workers=6)
